@@ -128,6 +128,10 @@ def _cfg_of(v):
     for x in psi.walk(v):
         if x[0] == 't' and x[1] == 'as' and len(x[2]) == 2 and x[2][1] == 'Some':
             return x[2][0]
+    # a configuration kept in an enum of its own (`ReferenceErrorBound::Phc { refid, path }`): the value that is downcast
+    for x in psi.walk(v):
+        if x[0] == 't' and x[1] == 'as' and len(x[2]) == 2:
+            return x[2][0]
     return None
 
 
@@ -309,6 +313,8 @@ def run(ctx, chk):
                 reply = 'tracking' if ((op == '==' and val == 1) or (op == '!=' and 0 in val)) else 'none'
             if term[0] == 't' and term[1] == 'discr' and _cfg_key(term[2][0]) in cfg_keys:
                 phc_cfg = (op == '==' and val == 1) or (op == '!=' and 0 in val)
+            if _is_id_test(term):
+                phc_cfg = True          # the ids are compared on this path: a PHC is configured here, however that is encoded
             if _is_id_test(term):
                 truth = (op == '!=' and set(val) == {0}) or (op == '==' and val == 1)
                 ids_equal = truth if term[1] in ('Eq', 'eq') else not truth
